@@ -50,19 +50,19 @@ type cfg struct {
 }
 
 type putRes struct {
-	Err        string
-	OwnFault   bool
-	Faults     []string
-	Readable   []bool
+	Err      string
+	OwnFault bool
+	Faults   []string
+	Readable []bool
 }
 
 type result struct {
-	Puts      []putRes
+	Puts       []putRes
 	TimerFault bool
-	AnyFault  bool
-	Later     string // error of the later fault-free Put ("" ok)
-	LaterRead bool
-	CloseErr  string
+	AnyFault   bool
+	Later      string // error of the later fault-free Put ("" ok)
+	LaterRead  bool
+	CloseErr   string
 }
 
 func scenario(c cfg, pre, flt int) sched.Scenario {
@@ -220,9 +220,6 @@ func scenario(c cfg, pre, flt int) sched.Scenario {
 func main() {
 	r := ev.Start("C13", ev.ModelChecking)
 	pre, flt := 1, 1
-	if r.Thorough() {
-		pre, flt = 2, 2
-	}
 	one := func(i int) write { return write{[]int{i}} }
 	cfgs := []cfg{
 		{"single small put, timer sync", []int{8}, []write{one(0)}, 3, 4096, 64},
@@ -235,7 +232,7 @@ func main() {
 	}
 	var scs []sched.Scenario
 	for i, c := range cfgs {
-		if i == len(cfgs)-1 && r.Quick() {
+		if i == len(cfgs)-1 {
 			// the 3-writer scenario is the expensive one: quick explores its two axes separately
 			c1, c2 := c, c
 			c1.name += " [schedules only]"
@@ -244,6 +241,14 @@ func main() {
 			continue
 		}
 		scs = append(scs, scenario(c, pre, flt))
+	}
+	if r.Thorough() {
+		// deeper bounds after the quick ones (the budget is shared per scenario, leftovers roll on)
+		pre, flt = 2, 2
+		for _, c := range cfgs {
+			c.name += " [deep]"
+			scs = append(scs, scenario(c, pre, flt))
+		}
 	}
 	r.Rule(fmt.Sprintf("every schedule with <=%d preemptions x every set of <=%d injected syscall failures (Open/Writev/Write/Linkat/Fdatasync=ENOSPC, Close=EIO, at every call occurrence) of %d closed scenarios on the real linux writer; non-trivial = distinct (scenario, per-writer outcome vector, timer fault) classes", pre, flt, len(cfgs)))
 	r.Assume("atomics are not scheduling points", "1-3 concurrent writers with limits shrunk so that count/size limits are crossed (the quantifier's 300 writers are not reachable by exhaustive interleaving exploration)",
